@@ -1,3 +1,4 @@
+import Desert.Lemmas.RoundTripFull
 import Desert.AltForm
 import Desert.Lemmas.Misc
 /-!
@@ -6,7 +7,7 @@ import Desert.Lemmas.Misc
 set_option linter.unusedSimpArgs false
 set_option linter.unusedVariables false
 
-theorem rt_flagged (env : Env) (henv : EnvV0 env) (t : Ty) : ∀ (items : Val) (st : EncSt) (b : Bytes) (st' : EncSt)
+theorem rt_flagged (env : Env) (henv : EnvWF env) (t : Ty) : ∀ (items : Val) (st : EncSt) (b : Bytes) (st' : EncSt)
     (fuel loop : Nat), encItemsFlagged env t items st = .ok (b, st') → items.utf8OK → StOK st → items.depth < fuel →
     items.chainLength < loop →
     ∀ (s : AbsSrc) (tl : Bytes), s.WF → s.view = b ++ tl → s.strs = st →
@@ -47,7 +48,7 @@ theorem rt_flagged (env : Env) (henv : EnvV0 env) (t : Ty) : ∀ (items : Val) (
             have := (view_cons hv').2; simpa [adv_eq_after] using this
           have hw1 : (s.after 1 s.strs).WF := by
             have := AbsSrc.WF_adv1 hw hv'; simpa [adv_eq_after] using this
-          have h1 := (rt_all env henv x).1 t st b1 st1 fuel hx hu.1 hst (by omega) _ _ hw1 hv1 (by simpa using hs)
+          have h1 := (rt_wf env henv x).1 t st b1 st1 fuel hx hu.1 hst (by omega) _ _ hw1 hv1 (by simpa using hs)
           have hw2 := WF_after hw1 hv1 st1
           have hv2 := view_after_append hv1 st1
           have h2 := ihr st1 b2 st2 fuel k hr hu.2 h1.2 (by omega) (by omega) _ tl hw2 hv2 (by simp)
@@ -67,7 +68,7 @@ theorem rt_flagged (env : Env) (henv : EnvV0 env) (t : Ty) : ∀ (items : Val) (
 
 /-- a sequence written in the unknown-length form decodes to exactly the elements the
 known-length form denotes -/
-theorem rt_seq_unknown (env : Env) (henv : EnvV0 env) (t : Ty) (items : Val) (st : EncSt) (b : Bytes) (st' : EncSt)
+theorem rt_seq_unknown (env : Env) (henv : EnvWF env) (t : Ty) (items : Val) (st : EncSt) (b : Bytes) (st' : EncSt)
     (fuel : Nat) (he : encSeqUnknown env t items st = .ok (b, st')) (hu : items.utf8OK) (hst : StOK st)
     (hd : items.depth < fuel) (hl : items.chainLength < fuel)
     (s : AbsSrc) (tl : Bytes) (hw : s.WF) (hv : s.view = b ++ tl) (hs : s.strs = st) :
